@@ -4,6 +4,7 @@ Monitor: a parameter sweep through the real constructors / loaders; the derived 
 recomputed independently in 60-digit decimal arithmetic (pv/refimpl.py).
 """
 import math
+import os
 from decimal import Decimal
 
 from .. import bl, gen, refimpl
@@ -404,6 +405,23 @@ def wl_cuckoo(ctx, rng, case):
                       got=(r.fingerprint_size_bits, r.bucket_size, r.capacity), want=(bits, b, c.capacity))
             ctx.count("cuckoo.configs_checked")
             ctx.observe("cuckoo.bits_seen", bits, cap=64)
+            if bits <= 9 and rng.random() < 0.5:
+                # the table GROWS (explicit expansions, up to more buckets than there are fingerprint values): the width is a function of the
+                # error rate and the bucket size only - the grown filter and every reload of it, through both loaders, keep it
+                g = cls.init_error_rate(err, capacity=rng.choice([3, 8, 32]), bucket_size=b, max_swaps=20, expansion_rate=rng.choice([2, 4]))
+                for i in range(6):
+                    g.add(f"grow-{i}")
+                while g.capacity <= 2 ** bits and g.capacity < 3000:
+                    g.expand()
+                ctx.check(g.fingerprint_size_bits == bits, f"fingerprint width changed while the table grew {where}", got=g.fingerprint_size_bits, want=bits, capacity=g.capacity)
+                path = os.path.join(ctx.tmpdir(), f"c07-grown-{os.getpid()}.cko")
+                g.export(path)
+                for how, r2 in (("frombytes(error_rate)", cls.frombytes(bytes(g), error_rate=err)), ("load_error_rate", cls.load_error_rate(err, path))):
+                    ctx.check((r2.fingerprint_size_bits, r2.bucket_size, r2.capacity) == (bits, b, g.capacity), f"a grown filter reloaded via {how} has another geometry {where}",
+                              got=(r2.fingerprint_size_bits, r2.bucket_size, r2.capacity), want=(bits, b, g.capacity))
+                    ctx.check(all(r2.check(f"grow-{i}") for i in range(6)), f"a grown filter reloaded via {how} does not report its keys {where}")
+                os.unlink(path)
+                ctx.count("cuckoo.grown_tables_reloaded")
             # a REFUSED change of the fingerprint width (documented range 1..4 bytes) must leave the derived geometry as it was
             for bad in rng.sample([0, 5, -1, 0.5, 4.5, 100, -8], 2):
                 try:
